@@ -127,7 +127,24 @@ class Checker:
             for j, i in enumerate(det_idx):
                 st.det_replays += 1
                 if again[j] != obs[i]:
-                    raise MachineryError("nondeterministic executor output for program %s" % progs[i][:300])
+                    # two executions of one program disagree. If either answer is one the expectation rejects, that is a wrong (and
+                    # inconsistent) answer of the implementation and goes down the violation path below; if both are admitted the step is
+                    # one the property leaves open (e.g. the output buffer of a rejected decryption) and nothing is concluded from it.
+                    ops_i, exp_i, meta_i = cases[i]
+                    a, b_ = obs[i], again[j]
+                    bad = None
+                    if len(b_) == len(ops_i):
+                        for k, (e, x) in enumerate(zip(exp_i, b_)):
+                            if not admits(e, x):
+                                bad = k
+                                break
+                    first_ok = len(a) == len(ops_i) and all(admits(e, x) for e, x in zip(exp_i, a))
+                    if bad is not None and first_ok:
+                        self.violation(ops_i, bad, exp_i[bad], b_[bad], meta_i, note="answer differs between two executions of the same program")
+                    elif bad is None and first_ok and b_ not in (["CRASH"], ["HANG"]):
+                        st.extra["unconstrained_nondeterministic_steps"] = st.extra.get("unconstrained_nondeterministic_steps", 0) + 1
+                    elif b_ in (["CRASH"], ["HANG"]) and first_ok:
+                        self.violation(ops_i, 0, "no process crash, no hang", b_[0], meta_i, note="only in the second execution of the same program")
         for (ops, exp, meta), p, o in zip(cases, progs, obs):
             self.transcript.update(p.encode())
             self.transcript.update(b"\x00")
@@ -169,14 +186,28 @@ class Checker:
             return
         st.violation_count += 1
         if len(st.violations) < MAX_RECORDED:
-            # determinism guard: the failing program must fail identically in a fresh process
+            # determinism guard: the failing program is re-run alone in fresh processes. The same wrong observation again (or a crash / hang)
+            # confirms it. A *different* observation that the expectation also rejects is still a violation of this program - the
+            # implementation answers wrongly and not even consistently (undefined behaviour shows up like this) - and is recorded as such.
+            # Only a program that fails here but answers as expected in every fresh re-run is a machinery problem, never a verdict.
             if observed != "BUILD-FAILED" and ops:
-                fresh = execpool.Executor(self.build)
-                try:
-                    o2 = fresh.run(";".join(ops))
-                finally:
-                    fresh.close()
-                if o2 not in (["CRASH"], ["HANG"]) and (step >= len(o2) or o2[step] != observed):
+                reruns = []
+                confirmed = False
+                for _ in range(3):
+                    fresh = execpool.Executor(self.build)
+                    try:
+                        o2 = fresh.run(";".join(ops))
+                    finally:
+                        fresh.close()
+                    reruns.append(o2)
+                    if o2 in (["CRASH"], ["HANG"]) or (step < len(o2) and o2[step] == observed):
+                        confirmed = True
+                        break
+                    if len(o2) == len(ops) and step < len(o2) and not admits(exp, o2[step]):
+                        confirmed = True
+                        v["note"] = ((v.get("note") or "") + " [inconsistent wrong answers across fresh processes: %r]" % (o2[step] if step < len(o2) else o2,)).strip()
+                        break
+                if not confirmed:
                     raise MachineryError("violation did not reproduce in a fresh process: %s" % ops)
             st.violations.append(v)
 
